@@ -188,7 +188,11 @@ class ResponseCheck:
         msg = list((s.q + '?\n').encode())
         dev = w.new_device('TR')
         dev.f[0].script[0] = ('ok', val)
-        wr = PassWriter() if s.writer == 'pass' else HVec(256)
+        if s.writer == 'std':
+            wr = HVec(10 ** 9)
+            wr.std = True
+        else:
+            wr = PassWriter() if s.writer == 'pass' else HVec(256)
         w.run(dev, msg, wr)
         out = list(wr.items)
         exp = s.encode(ref) + [10]
